@@ -186,6 +186,13 @@ func init() {
 			rd = bufio.NewReader(vr)
 		case "bufio64":
 			rd = bufio.NewReaderSize(vr, 64)
+		case "bufio193", "bufio194", "bufio256":
+			// buffers just large enough to be peeked for auto-detection: behave like the default-size bufio.Reader
+			n := map[string]int{"bufio193": 193, "bufio194": 194, "bufio256": 256}[kind]
+			rd = bufio.NewReaderSize(vr, n)
+		case "bufio192":
+			// one byte too small to peek 193 bytes: read like a plain reader
+			rd = bufio.NewReaderSize(vr, 192)
 		default:
 			rd = vr
 		}
@@ -248,7 +255,7 @@ func init() {
 		packetAPI := c.str("api") == "packet"
 		view := c.str("view")
 		pos := func() string {
-			if kind == "bufio" || kind == "bufio64" {
+			if strings.HasPrefix(kind, "bufio") {
 				return "-"
 			}
 			return fmt.Sprintf("%d", vr.pos)
